@@ -37,12 +37,16 @@ def noSpill (p : Project) : Bool :=
     | .Store _ (.Var _) => false
     | _ => true
 
+/-- `true` was used while the repair of `lost-read-at-exit` (/repo 21184aa) was not yet in /repo: accept the
+signatures of the unrepaired analysis as well and keep their misses under the then known class -/
+def interim : Bool := false
+
 def handleE (line : String) : Except String String := do
   let j ← Json.parse line
   let p ← parseProject (← field j "project")
   let implJ ← field j "impl"
   if let .ok s := implJ.getStr? then
-    return s!"spec class=impl-{(s.splitOn ":").headD "panic"} expected=signatures impl={s.take 80}"
+    return s!"spec class=impl-{s.take 70} expected=signatures impl={s.take 80}"
   let U := regUniverse p
   let nregs := U.length
   let P := compile p
@@ -66,23 +70,31 @@ def handleE (line : String) : Except String String := do
     let impl := (names.filterMap fun n => let i := U.findIdx (·.name == n); if i < nregs then some i else none)
     let params := ((P[f]?).map (·.params)).getD []
     let specB := (TB.summ f).filter params.contains
-    let sigR := params.filter fun r => flaggedB P TR f r (fun _ => true)
-    let sigR' := params.filter fun r => flaggedB P' TR f r (fun _ => true)
+    let sigOld := params.filter fun r => flaggedB P TR f r (fun _ => true)
+    let sigX := params.filter fun r => flaggedXB P TR f r
+    let sigX' := params.filter fun r => flaggedXB P' TR f r
+    let sigOld' := params.filter fun r => flaggedB P' TR f r (fun _ => true)
     -- model
     let nn := P.size f
     let σ := solveM P TR f (nn * (2 * nregs + 2) + 2) (startSol P f)
     let closed := closedB P TR f σ && (sweep P TR f σ == σ)
-    let model := maskToList nregs (allFlags σ)
+    let modelNew := maskToList nregs (allFlagsX P f σ)
+    let modelOld := maskToList nregs (allFlags σ)
+    let useNew := !interim || subset modelNew impl
+    let model := if useNew then modelNew else modelOld
+    let sigR := if useNew then sigX else sigOld
+    let sigR' := if useNew then sigX' else sigOld'
     let mret := (maskToList nregs (retFlags P f σ))
     let missing := specB.filter (fun r => !impl.contains r)
     for r in missing do
-      if sigR.contains r then
-        let k := bestKind (goalKinds P TR f r (goalR P TR f r (fun _ => true)) false)
-        specs := specs ++ [(s!"missed-{k}", s!"{s.tid.id}:{showRegs U [r]}")]
+      if sigX.contains r then
+        let k := bestKind (goalKinds P TR f r (goalX P TR f r) false)
+        if interim && !sigOld.contains r then
+          specs := specs ++ [("lost-read-at-exit", s!"{s.tid.id}:{showRegs U [r]}:{k}")]
+        else
+          specs := specs ++ [(s!"missed-{k}", s!"{s.tid.id}:{showRegs U [r]}")]
       else
-        let k := bestKind (goalKinds P TB f r (goalB P TB f r) true)
-        let cls := if k == "callee-path" then "lost-read-in-callee" else "lost-read-at-exit"
-        specs := specs ++ [(cls, s!"{s.tid.id}:{showRegs U [r]}:{k}")]
+        specs := specs ++ [("lost-read-in-callee", s!"{s.tid.id}:{showRegs U [r]}")]
     if !closed then diffs := diffs ++ [s!"{s.tid.id}:model-not-closed"]
     if !subset sigR sigR' || !subset sigR' model || !subset model sigR' then
       diffs := diffs ++ [s!"{s.tid.id}:oracleR={showRegs U sigR}/oracleR'={showRegs U sigR'}/model={showRegs U model}"]
@@ -95,6 +107,7 @@ def handleE (line : String) : Except String String := do
     tags := tags ++ [if specB.isEmpty then "fn-noparams" else "fn-params",
                      if subset impl model then "fn-model=impl" else "fn-model<impl"]
     if specB.length != sigR.length then tags := tags ++ ["fn-B>R"]
+    if modelNew.length != modelOld.length then tags := tags ++ [if useNew then "fn-exit-reads-recorded" else "fn-exit-reads-lost"]
   match specs with
   | (cls, d) :: _ =>
     -- the most ordinary class first
